@@ -478,16 +478,16 @@ def run_history(v, geom, ops, backends, scratch, hid, drop_old=True, plain_ctor=
                 if exp[0] == "raise":
                     if err is None:
                         v.bad(f"dump:no-IndexError/{exp[1]}{tail()}",
-                              f"dump{M.show_key(key)} accepted; the key is {exp[1]} for external shape {S}", **wit(j))
+                              f"dump {M.show_key(key)} accepted; the key is {exp[1]} for external shape {S}", **wit(j))
                         break
                     if not isinstance(err, IndexError):
                         v.bad(exc_sig(err, f"dump:{exp[1]}-not-IndexError") + tail(),
-                              f"dump{M.show_key(key)} ({exp[1]}) raised {exc_msg(err)} instead of IndexError", **wit(j))
+                              f"dump {M.show_key(key)} ({exp[1]}) raised {exc_msg(err)} instead of IndexError", **wit(j))
                         nbad += 1
                     continue
                 if err is not None:
                     v.bad(exc_sig(err, "dump") + tail() + f"/{kc}",
-                          f"dump{M.show_key(key)} of a valid key (external shape {S}) raised {exc_msg(err)}", **wit(j))
+                          f"dump {M.show_key(key)} of a valid key (external shape {S}) raised {exc_msg(err)}", **wit(j))
                     break
                 # localise a dump that wrote the wrong elements: the written set right after the dump
                 want = written_after[j]
@@ -498,7 +498,7 @@ def run_history(v, geom, ops, backends, scratch, hid, drop_old=True, plain_ctor=
                     ml = hi = None
                 if ml is not None and ml != want and hi != want:
                     v.bad(f"dump:written-set-mismatch/{name}/{gcls}/{kc}",
-                          f"after dump{M.show_key(key)} the written elements (linear, per has_index) are {hi}, "
+                          f"after dump {M.show_key(key)} the written elements (linear, per has_index) are {hi}, "
                           f"model expects {want}", **wit(j, got=hi, expected=want))
                     break
                 # ... or wrote the right set of elements but the wrong values (only visible on overwrites)
@@ -511,7 +511,7 @@ def run_history(v, geom, ops, backends, scratch, hid, drop_old=True, plain_ctor=
                         gotv = got_all = None
                     if gotv is not None and gotv != wantv and got_all != want_all:
                         v.bad(f"dump:stored-values-mismatch/{name}/{gcls}/{kc}",
-                              f"after dump{M.show_key(key)} the stored elements (get_from_index per linear index) are "
+                              f"after dump {M.show_key(key)} the stored elements (get_from_index per linear index) are "
                               f"{short(gotv)}, model expects {short(wantv)}", **wit(j, got=short(gotv, 800), expected=short(wantv, 800)))
                         break
                 continue
